@@ -696,3 +696,114 @@ Proof.
   intros fs fuel s H [A [B C]]. rewrite Forall_forall in H.
   repeat split; apply Forall_forall; intros f I; apply H; [apply A|apply B|apply C]; exact I.
 Qed.
+
+(* --------------------------------- the detector raises no false alarm on DAGs *)
+
+Lemma dfs_edges_no_cycle : forall rec es,
+  (forall c t, In (c, Some t) es -> rec t c <> DCycle) -> dfs_edges rec es <> DCycle.
+Proof.
+  intros rec es. induction es as [|[c [t|]] es IH]; intros H; cbn [dfs_edges].
+  - discriminate.
+  - destruct (rec t c) eqn:R.
+    + apply IH. intros c' t' I. apply H. right. exact I.
+    + exfalso. apply (H c t); [left; reflexivity|exact R].
+    + discriminate.
+  - apply IH. intros c' t' I. apply H. right. exact I.
+Qed.
+
+(* on a ranked graph every processor on the current path has a larger rank than
+   the one being visited, so no (condition, processor) pair can repeat *)
+Lemma dfs_no_cycle : forall g rk, ranked g rk ->
+  forall fuel vis k c,
+  (forall p, In p vis -> (rk k < rk (snd p))%nat) ->
+  dfs g fuel vis k c <> DCycle.
+Proof.
+  intros g rk R. induction fuel as [|f IH]; intros vis k c INV; [discriminate|].
+  cbn [dfs]. destruct (visited vis (norm c, k)) eqn:V.
+  - apply visited_true in V. specialize (INV _ V). cbn [snd] in INV. lia.
+  - apply dfs_edges_no_cycle. intros c' t I. apply IH.
+    intros p [E|P].
+    + subst p. cbn [snd]. exact (R _ _ _ I).
+    + specialize (INV _ P). specialize (R _ _ _ I). lia.
+Qed.
+
+Lemma dfs_nodes_no_cycle : forall g rk fuel ns,
+  ranked g rk -> dfs_nodes g fuel ns <> DCycle.
+Proof.
+  intros g rk fuel ns R. induction ns as [|n ns IH]; cbn [dfs_nodes]; [discriminate|].
+  assert (N : dfs_from g fuel (snd n) <> DCycle).
+  { unfold dfs_from. apply dfs_edges_no_cycle. intros c t _.
+    eapply dfs_no_cycle; [exact R|]. intros p []. }
+  destruct (dfs_from g fuel (snd n)); [exact IH|contradiction|discriminate].
+Qed.
+
+Lemma detect_complete : forall g rk d,
+  ranked g rk -> detect true (detect_fuel g) d g = DOk.
+Proof.
+  intros g rk d R.
+  pose proof (detect_no_fuel true d g) as NF.
+  assert (NC : detect true (detect_fuel g) d g <> DCycle).
+  { unfold detect. eapply dfs_nodes_no_cycle. exact R. }
+  destruct (detect true (detect_fuel g) d g); [reflexivity|contradiction|contradiction].
+Qed.
+
+(* ------------------------------------- a flow that refers to itself is rejected *)
+
+Lemma build_list_err_at : forall step pre c post s,
+  (forall s', step c s' = BErr) ->
+  (forall c' s', step c' s' <> BFuel) ->
+  build_list step (pre ++ c :: post) s = BErr.
+Proof.
+  intros step pre c post s E NF. revert s.
+  induction pre as [|p pre IH]; intros s; cbn [app build_list].
+  - rewrite E. reflexivity.
+  - destruct (step p s) eqn:S; [apply IH|reflexivity|].
+    exfalso. eapply NF. exact S.
+Qed.
+
+(* a connection `processor -> flow X at start` *)
+Definition refers_to (c : conn) (x : Z) : Prop :=
+  (exists r, ep_proc (c_from c) = Some r) /\ ep_proc (c_to c) = None
+  /\ ep_stream (c_to c) = None /\ ep_flow (c_to c) = Some (x, 0).
+
+Lemma self_reference_err : forall cf top d rec cur stack c s,
+  refers_to c top -> In top stack -> (exists f, find_flow cf top = Some f) ->
+  build_conn cf true top d rec cur stack c s = BErr.
+Proof.
+  intros cf top d rec cur stack c [b foreign] [[r FR] [TP [TS TF]]] IN [f FF].
+  unfold build_conn. rewrite FR, TP, TS, TF.
+  destruct (negb (from_cond_ok cf d cur r)); [reflexivity|].
+  cbn iota. change (0 =? 0) with true. cbn iota.
+  destruct (get_or_create cf cur r b) as [[b1 src]|]; [|reflexivity].
+  unfold incorporate. rewrite FF.
+  assert (M : memZ top stack = true) by (apply memZ_true; exact IN).
+  rewrite M. reflexivity.
+Qed.
+
+Lemma build_conns_S : forall cf guard top d f cur stack cs s,
+  build_conns cf guard top d (S f) cur stack cs s
+  = build_list (build_conn cf guard top d (build_conns cf guard top d f) cur stack) cs s.
+Proof. reflexivity. Qed.
+
+Lemma self_reference_rejected : forall cf allstarts fc pre c post,
+  In fc (cf_flows cf) ->
+  fc_req fc = pre ++ c :: post -> refers_to c (fc_name fc) ->
+  build_flow cf true allstarts fc = FBad.
+Proof.
+  intros cf allstarts fc pre c post IN E R. unfold build_flow.
+  assert (FF : exists f, find_flow cf (fc_name fc) = Some f).
+  { unfold find_flow.
+    destruct (find (fun f => fc_name f =? fc_name fc) (cf_flows cf)) as [f|] eqn:F; [eauto|].
+    exfalso. pose proof (find_none _ _ F _ IN) as N. cbn in N. rewrite Z.eqb_refl in N. discriminate. }
+  assert (B : build_conns cf true (fc_name fc) Req (build_fuel cf) (fc_name fc) [fc_name fc]
+                          (fc_req fc) (empty_bdir, None) = BErr).
+  { unfold build_fuel. rewrite build_conns_S, E. apply build_list_err_at.
+    - intros s'. apply self_reference_err; [exact R|left; reflexivity|exact FF].
+    - intros c' s'. apply build_conn_no_fuel. intros name st.
+      apply incorporate_no_fuel. intros cs' st' NI INn.
+      apply build_conns_no_fuel.
+      + constructor; [exact NI|constructor; [intros []|constructor]].
+      + intros x [X|[X|[]]]; subst; [right; exact INn|left; reflexivity].
+      + cbn [length]. lia. }
+  rewrite B. reflexivity.
+Qed.
